@@ -92,13 +92,17 @@ func (s *Set[T]) SortMerge(lt cmp.LessThan[T]) {
 func (s *Set[T]) forceSetupOrdered() {
 	fun.Invariant.Ok(s.list == nil)
 	s.list = &List[T]{}
+	// index the new elements, so that deleting an item later also
+	// removes it from the list. The index is built as a new map: the
+	// current one may still be read by the goroutine of an iterator
+	// that was abandoned half way, and must not be written to.
+	hash := make(Map[T, *Element[T]], len(s.hash))
 	for item := range s.hash {
-		// index the new element, so that deleting the item
-		// later also removes it from the list.
 		elem := NewElement(item)
 		s.list.Back().Append(elem)
-		s.hash[item] = elem
+		hash[item] = elem
 	}
+	s.hash = hash
 }
 
 // WithLock configures the Set to synchronize operations with this
